@@ -25,6 +25,8 @@ ASSUMPTIONS = ["generator builds valid N-Triples by construction; rdflib 6.0.2 N
                "and every Hypothesis case", "non-termination is detected by a 5 s alarm and confirmed by a line-event bound"]
 BUDGET = {"quick": {"examples": 16000, "wall": 240}, "thorough": {"examples": 1000000, "wall": 5400}}
 EXHAUSTIVE = {"quick": True, "thorough": True}
+# coverage-guided supplement (vf/fuzz.py): libFuzzer runs per shard, 16 shards
+FUZZ = {"quick": {"runs": 6000, "wall": 120}, "thorough": {"runs": 150000, "wall": 3000}}
 FLOORS = {"nontrivial": 0.5}
 
 from vf.sut import shexer  # noqa
@@ -293,7 +295,8 @@ def stmt(draw):
         otext, oexp = o[0], list(o[1])
     sm = {"s": s, "p": p, "otext": otext, "oexp": oexp, "sep": sep, "tail": tail}
     pre = draw(st.lists(st.sampled_from(["# a comment", "", "   ", "# <http://ex.org/a> <http://ex.org/b> <http://ex.org/c> .",
-                                         '#"x"@en']), max_size=1))
+                                         '#"x"@en', "  # indented comment", "\t# comment after a tab", " \t ", "#", "\t",
+                                         '   # <http://ex.org/a> <http://ex.org/b> "c" .']), max_size=2))
     if pre:
         sm["pre"] = pre
     return sm
